@@ -231,8 +231,8 @@ def fam_mixed(g, t, W):
     for kinds in ([S, I, F(0, -1)], [I, F(0, -1), S], [F(0, -1), S, I], [I, I, S], [S, S, I], [F(0, 2), F(1, 3), I]):
         g.wr("mixed3d", t, sh3, kinds, [0, 1, 2, 3, 4], ["scalar", "slice"], RS_THIN | M_LASTFULLQ | M_ENC | M_SRC_THIN3 | M_ONE_CONTENT, 0.3)
     if g.tier == "thorough":
-        g.wr("mixed4d", t, (2, 2, 3, W + 1), [S, I, F(0, -1), S], [0, 1, 2, 3, 4], ["scalar", "slice"], RS_THIN | M_LASTFULLQ | M_SRC_THIN3 | M_ONE_CONTENT, 0.4)
-        g.wr("mixed5d", t, (2, 3, 2, 2, W + 1), [I, S, F(0, 2), I, S], [0, 3], ["scalar", "slice"], RS_THIN | M_LASTFULLQ | M_SRC_THIN3 | M_ONE_CONTENT, 0.5)
+        g.wr("mixed4d", t, (2, 2, 3, W + 1), [S, I, F(0, -1), S], [0, 1, 2, 3, 4], ["scalar", "slice"], RS_THIN | M_LASTFULLQ | M_SRC_LASTAXIS | M_ONE_CONTENT, 0.4)
+        g.wr("mixed5d", t, (2, 3, 2, 2, W + 1), [I, S, F(0, 2), I, S], [0, 3], ["scalar", "slice"], RS_THIN | M_LASTFULLQ | M_SRC_LASTAXIS | M_ONE_CONTENT, 0.5)
 
 
 def fam_elem(g, t, W):
